@@ -56,11 +56,12 @@ def run(chk):
     for _ in range(1000 if chk.thorough else 30):
         a, b, c3 = rng.randrange(1, 9), rng.randrange(1, 9), rng.randrange(1, 9)
         decls = ["class GBase { public int gb = %d; public constructor() -> GBase = default; public virtual function id() -> int { return gb; } }" % a,
-                 "class GMid<T> extends GBase { public int gm = %d; public T held; public constructor() -> GMid<T> { super(); return this; } public override function id() -> int { return gm * 10 + gb; } }" % b,
+                 "class GMid<T> extends GBase { public int gm = %d; public T held; public static GTag tag = new GTag(7); public constructor() -> GMid<T> { super(); return this; } public function tagv() -> int { return tag.v; } public override function id() -> int { return gm * 10 + gb; } }" % b,
                  "class GLeaf extends GMid<int> { public int gl = %d; public constructor() -> GLeaf { super(); return this; } }" % c3,
                  "class GItem { public int w = %d; public constructor() -> GItem = default; }" % (a + b),
+                 "class GTag { public int v; public constructor(int v) -> GTag { this.v = v; return this; } }",
                  "class GBox<T extends GItem> { public T it; public static int made = 0; public constructor(T it) -> GBox<T> { this.it = it; made = made + 1; return this; } public function w() -> int { return it.w + made; } }",
-                 "function main() -> void { GLeaf x = new GLeaf(); echo(x.gb); echo(x.gm); echo(x.gl); echo(x.id()); GBase y = new GLeaf(); echo(y.id()); "
+                 "function main() -> void { GLeaf x = new GLeaf(); echo(x.gb); echo(x.gm); echo(x.gl); echo(x.id()); echo(x.tagv()); GBase y = new GLeaf(); echo(y.id()); "
                  "GBox<GItem> bx = new GBox<GItem>(new GItem()); echo(bx.w()); GMid<string> ms = new GMid<string>(); echo(ms.gm + ms.gb); }"]
         ps = perms(rng, len(decls), 4)
         cases.append((["\n".join(decls)] + ["\n".join(decls[i] for i in p) for p in ps], ps, [], False))
